@@ -3,6 +3,7 @@ package pcrypto
 import (
 	"bytes"
 	"crypto/ed25519"
+	"encoding/binary"
 	"encoding/pem"
 	"testing"
 
@@ -30,7 +31,7 @@ type c11Case struct {
 	Text string    `json:"text"`
 }
 
-var c11Kinds = []string{"priv64-mismatch", "priv96-match", "priv96-mismatch", "priv-len", "pub-len", "keytype",
+var c11Kinds = []string{"priv64-mismatch", "priv96-match", "priv96-mismatch", "priv-len", "pub-len", "keytype", "keytype-wide", "keytype-wide",
 	"pem-wrong-type", "pem-trailing", "pem-swap", "pem-corrupt"}
 
 func genC11(t *rapid.T) c11Case {
@@ -376,6 +377,21 @@ func c11Malformed(c c11Case, o *vstat.Outcome) *vstat.Violation {
 		}
 		in = privProto(std, kt)
 		wantAccept = 0
+	case "keytype-wide":
+		// key messages (private, or public when N is odd) whose key_type varint is unknown, huge, or negative as int32
+		kts := []uint64{0, 2, 3, 7, 127, 128, 999, 0x7fffffff, 0x80000000, 0xffffffff, 1 << 32, 1<<32 + 1, 1 << 63, ^uint64(0)}
+		tmp := make([]byte, 10)
+		data := std
+		if c.N%2 == 1 {
+			data, _ = k.GetPublic().Raw()
+		}
+		in = append([]byte{0x08}, tmp[:binary.PutUvarint(tmp, kts[(c.N/2)%len(kts)])]...)
+		in = append(append(in, 0x12, byte(len(data))), data...)
+		// 1<<32+1 truncates to key type 1 (Ed25519) in an int32 field: acceptance is then not asserted
+		wantAccept = 0
+		if kts[(c.N/2)%len(kts)] == 1<<32+1 {
+			wantAccept = -1
+		}
 	case "pem-wrong-type":
 		b, _ := crypto.MarshalPrivateKey(k)
 		in = pem.EncodeToMemory(&pem.Block{Type: rapid.SampledFrom([]string{"PRIVATE KEY", "LIBP2P PRIVATE KEY ", "", "OPENSSH PRIVATE KEY"}).Example(c.N), Bytes: b})
